@@ -270,7 +270,113 @@ def run(ctx):
         quick = ctx.tier == "quick"
         base = vlib.load_corpus("C09")
         cases, hist = gen_cases(ctx, 12000 if quick else 400000, 4000 if quick else 100000)
-        cases = base + cases
+        cases = [c for c in base if not c[0].startswith("pf print")] + cases
     ctx.correspond("snprintf", exe, cases, oracle=oracle, compare=compare, nontrivial=lambda c: "25" in c[0].split()[3])
+    # the type-directed print family, unbounded forms
+    if ctx.replay_cases is None:
+        r = ctx.rng
+        pcases, kinds = [c for c in vlib.load_corpus("C09") if c[0].startswith("pf print")], {}
+        for _ in range(3000 if ctx.tier == "quick" else 100000):
+            objs = rand_objs(r)
+            if not objs: continue
+            for k, _ in objs: kinds[k] = kinds.get(k, 0) + 1
+            toks = obj_tokens(objs)
+            pcases.append(["pf print %s %d %s" % (fn, 100000, toks) for fn in ("bp", "bpl", "sp", "spl", "fp", "fpl")])
+        ctx.correspond("print-family", exe, pcases, oracle=print_oracle, nontrivial=lambda c: True)
+        ctx.extra_cov["print_object_kinds"] = kinds
     ctx.extra_cov["conversions"] = hist
     ctx.extra_cov["glibc_deviations_from_exact_reference"] = dict(GLIBC_DEV)
+
+
+# ---------------------------------------------------------------------------------------------- print family
+
+def rand_objs(r, with_fmt=True):
+    """objects of a print call: list of (letter, value) with at most 6 integer-class and 8 double values"""
+    objs, ng, nd = [], 0, 0
+    for _ in range(r.choice([1, 1, 2, 3, 4, 5])):
+        k = r.choice("caAhHiIlLqQbfdtgpF" if with_fmt else "caAhHiIlLqQbfdtgp")
+        if k == "F":
+            fmt, args = rand_format(r, nconv=r.choice([0, 1, 2]))
+            if b"\0" in fmt: continue
+            a_g = sum(1 for t, _ in args if t != "d"); a_d = sum(1 for t, _ in args if t == "d")
+            if ng + 1 + a_g > 6 or nd + a_d > 8: continue
+            objs.append(("F", fmt)); ng += 1 + a_g; nd += a_d
+            for t, v in args:
+                if t == "d": objs.append(("d", v))
+                elif t in "sx": objs.append(("t", v.split(b"\0")[0]))
+                else: objs.append(("q" if t == "i" else "Q", v if t == "i" else v % (1 << 64)))
+            continue
+        if k in "fd":
+            if nd >= 8: continue
+            objs.append((k, rand_double(r))); nd += 1; continue
+        if ng >= 6: continue
+        ng += 1
+        if k in "ca": v = r.choice([65, 97, 48, 32, 126, 10])
+        elif k == "A": v = r.choice([65, 200, 255, 1])
+        elif k == "h": v = r.choice([0, 1, -1, 32767, -32768, 1234])
+        elif k == "H": v = r.choice([0, 1, 65535, 40000])
+        elif k == "i": v = r.choice([0, 7, -7, 2147483647, -2147483648, 999999999, 1000000000, -1000000000])
+        elif k == "I": v = r.choice([0, 9, 4294967295, 999999999, 1000000000])
+        elif k in "lq": v = r.choice([0, -1, 9223372036854775807, -9223372036854775808, 10**18, -10**17, 123456789012])
+        elif k in "LQ": v = r.choice([0, 1, 18446744073709551615, 10**19, 999999999, 1000000000, 12345678901234567890])
+        elif k == "b": v = r.choice([0, 1, 1, 7])
+        elif k == "p": v = r.choice([0, 1, 0xdeadbeef, 0x7ffe12345678, (1 << 64) - 1])
+        elif k == "t": v = bytes(r.choice(b"abc xyz,%") for _ in range(r.choice([0, 1, 3, 8, 20])))
+        elif k == "g": v = bytes(r.choice(b"ab\0c \xc3\xa4") for _ in range(r.choice([0, 1, 4, 9])))
+        objs.append((k, v))
+    return objs
+
+
+def obj_tokens(objs):
+    out = []
+    for k, v in objs:
+        if k in "fd": out.append("%s%016x" % (k, v))
+        elif k in "tgF": out.append(k + hx(v))
+        else: out.append("%s%d" % (k, v))
+    return " ".join(out)
+
+
+def print_ref(objs, ln):
+    """the property's text: default conversions, embedded formats, println separators"""
+    parts, i = [], 0
+    while i < len(objs):
+        k, v = objs[i]
+        i += 1
+        if k == "F":
+            specs = [p for p in R.parse(v) if not isinstance(p, bytes) and p.conv != "%"]
+            need = sum(1 + (p.width == "*") + (p.prec == "*") for p in specs)
+            args = []
+            for kk, vv in objs[i:i + need]:
+                args.append(("d", vv) if kk in "fd" else ("s", vv) if kk in "tg" else ("i", vv))
+            i += need
+            parts.append(R.sprintf(v, args))
+        elif k in "caA": parts.append(bytes([v & 255]))
+        elif k in "hilq": parts.append(b"%d" % v)
+        elif k in "HILQ": parts.append(b"%d" % v)
+        elif k == "b": parts.append(b"true" if v & 0xffffffff else b"false")
+        elif k in "fd": parts.append(R.sprintf(b"%g", [("d", v)]))
+        elif k == "t": parts.append(v)
+        elif k == "g": parts.append(v)
+        elif k == "p": parts.append(b"(nil)" if v == 0 else b"0x%x" % v)
+    if ln:
+        return b" ".join(parts) + b"\n"
+    return b"".join(parts)
+
+
+def print_oracle(case, out):
+    for l, o in zip(case, out):
+        t = l.split()
+        fn = t[2]
+        objs = []
+        for a in t[4:]:
+            k = a[0]
+            if k in "fd": objs.append((k, int(a[1:], 16)))
+            elif k in "tgF": objs.append((k, b"" if a[1:] == "-" else bytes.fromhex(a[1:])))
+            else: objs.append((k, int(a[1:])))
+        want = print_ref(objs, fn.endswith("l"))
+        d = dict(x.split("=", 1) for x in o.split())
+        w = b"" if d["w"] == "-" else bytes.fromhex(d["w"])
+        r = int(d["r"])
+        if w != want or r != len(want):
+            return "%s: produced %r (returned %d); each argument's default conversion gives %r (%d bytes)" % (l, w, r, want, len(want))
+    return None
